@@ -523,8 +523,9 @@ def r6_chords(ctx):
               'ChordToken.export does not export every note with **kwargs (a note is lost or exported unfiltered)')
     # verbatim family ignores kwargs
     for qn in ('SimpleToken', 'ErrorToken', 'HeaderToken', 'BoundingBoxToken', 'MHXMToken'):
-        f = ctx.prog.func(f'{N.TOKENS}.{qn}.export')
-        rets = symex.returns(f)
+        cls_ = ctx.prog.cls(f'{N.TOKENS}.{qn}')
+        f = ctx.prog.find_method(cls_, 'export')        # the class's own export, or the one it inherits
+        rets = [(None, v, sp_) for sp_, v in F.effective_returns(ctx, cls_, 'export')]
         okv = len(rets) >= 1 and all(src(v) == 'self.encoding' for _, v, _ in rets)
         ctx.check(okv, 'R6', f.loc, f.qualname, f'verbatim-export:{qn}',
                   f'{qn}.export returns the stored text whatever the encoding options (non-note cells are identical in the six encodings)',
